@@ -218,7 +218,8 @@ fn info(name: &str) -> DictionaryInfo {
 /// LONG_CAND: one candidate of reading ㄘㄜˋ that is longer than every static buffer (100 x 3 bytes):
 /// the only way to drive copy_cstr's |s| >= cap branch through the exported functions.
 fn long_cand() -> String {
-    "冊".repeat(100)
+    // 1 + 3*100 bytes: the cut at 255 falls inside a character
+    format!("x{}", "冊".repeat(100))
 }
 
 fn mkdata(dir: &str) -> i32 {
@@ -1210,11 +1211,11 @@ fn fixed_seqs() -> Vec<Seq> {
     let mut c = t("hk4");
     c.push(Call::Simple("cand_open"));
     c.push(Call::CandEnum);
-    for _ in 0..12 {
+    for _ in 0..70 {
         c.push(Call::CandHasNext);
         c.push(Call::CandStringStatic);
     }
-    for i in 0..12 {
+    for i in 0..70 {
         c.push(Call::CandByIndexStatic(i));
     }
     c.push(Call::CandEnum);
